@@ -474,6 +474,9 @@ func (vt *Model) print(seq ansi.Print) {
 	if vt.mode.irm {
 		line := vt.activeScreen[rw]
 		for i := vt.margin.right; i > col; i -= 1 {
+			if i-column(w) < 0 || int(i) >= len(line) {
+				continue
+			}
 			line[i] = line[i-column(w)]
 		}
 	}
